@@ -3,7 +3,10 @@
 P (arbitrary well-formed circuit): remove_gate (succeeds exactly for an existing gate nobody uses, removes it
    from gates, users, inputs, outputs and deletes blocks naming it; WF kept) and replace_inputs for up to two
    labels per list (retyped to the constant, removed from the input list, every other gate untouched, WF kept,
-   exact raise conditions). rename_gate and replace_subcircuit are bounded-only in this build.
+   exact raise conditions); rename_gate on an arbitrary well-formed circuit (arbitrary arity, any number of users,
+   outputs listed repeatedly, optional block): the post-state is the image of the pre-state under old -> new, exact
+   raise conditions, WF kept (vlib/props/c19_rename.py; three loops cut by closed-form invariants);
+   Block._rename_gate on lists of bounded length. replace_subcircuit is bounded-only in this build.
 B: vlib/bounded/C19.py (rename_gate, replace_inputs incl. input order and cofactor, remove_gate, replace_subcircuit)."""
 import z3
 
@@ -70,10 +73,15 @@ def run(rep):
     rep.trusted_base = list(STD_TRUSTED) + ['abstract circuit model vlib/pyvc/circuit_model.py', 'proof rule R2: retyping an input to a constant yields the cofactor (DAG induction over unchanged gate equations)']
     for a in STD_ASSUME:
         rep.assume(a)
-    rep.assume('rename_gate and replace_subcircuit have no deductive obligation in this build (bounded stand-in only); input ORDER after replace_inputs is bounded-only (the model keeps the multiset of inputs)')
+    rep.assume('replace_subcircuit has no deductive obligation in this build (bounded stand-in only); input ORDER after replace_inputs is bounded-only (the model keeps the multiset of inputs)')
+    rep.assume('rename_gate: Block._rename_gate is used at its call site by a count-level summary (every occurrence of old becomes new in the three block lists); its body is proved '
+               'position-wise only for lists of length <= (2,3,2); representation lemmas of python lists/tuples (a counted label occurs at some position; two positions with the same '
+               'label count >= 2; x occurs in a prefix-closed enumeration iff count(x) > 0; the filter comprehension [i for i, y in enumerate(L) if y == x] enumerates all positions of x increasingly) are background facts')
     it = new_interp()
     pv = Prover(rep, it, 'C19')
+    from .c19_rename import RenameGate, BlockRename
     cs = [RemoveGate()] + [ReplaceInputs(a, b) for a, b in ((1, 0), (0, 1), (1, 1), (2, 0), (0, 2), (2, 1), (0, 0))]
+    cs += [RenameGate()] + [BlockRename(*k) for k in ((0, 0, 0), (1, 1, 1), (2, 3, 2))]
     for c in cs:
         it.loop_specs.clear()
         it.contracts.clear()
@@ -84,4 +92,4 @@ def run(rep):
     refuted = pv.discharge(env.NPROC)
     finish_refuted(rep, pv, refuted)
     run_bounded(rep, 'C19', quick)
-    rep.extra['explanation'] = 'remove_gate and replace_inputs proved on an arbitrary well-formed circuit from the real source; rename_gate / replace_subcircuit: bounded stand-in.'
+    rep.extra['explanation'] = 'remove_gate, replace_inputs and rename_gate proved on an arbitrary well-formed circuit from the real source; replace_subcircuit: bounded stand-in.'
